@@ -6,6 +6,7 @@ set -u
 id="$1"; m="$2"; tier="${3:-quick}"
 src="/tmp/seed/out/$id/$m"; dst="/verif/seeded/$id-$m"
 [ -d "$src" ] || src="/tmp/seed2/out/$id/$m"
+[ -d "$src" ] || src="/tmp/seed3/out/$id/$m"
 [ -d "$src" ] || src="$dst"
 [ -f "$src/patch.diff" ] || { echo "no patch in $src"; exit 2; }
 mkdir -p "$dst"; [ "$src" != "$dst" ] && [ ! -f "$dst/patch.diff" ] && cp "$src"/patch.diff "$src"/demo_test.go "$src"/meta.json "$dst"/ 2>/dev/null
@@ -28,7 +29,20 @@ fi
 git -C /repo worktree remove --force "$wt"
 # run the check against the change in /repo itself
 det="n/a"; lines=""
-if [ $res_apply = ok ]; then
+if [ $res_apply = ok ] && [ "${USE_WORKTREE:-}" = 1 ]; then
+  # /repo is busy: run the check against a scratch worktree carrying the change,
+  # with its own evidence directory (same build, same harness, same findings file)
+  cid="${CHECK_ID:-$id}"
+  wt2="/tmp/seedv/$id-$m-check"; rm -rf "$wt2"; git -C /repo worktree add -q --detach "$wt2" HEAD || exit 2
+  git -C "$wt2" apply "$dst/patch.diff"
+  vd="/tmp/seedv/vd-$id-$m"; rm -rf "$vd"; mkdir -p "$vd/evidence" "$vd/replays"; cp /verif/known_findings.json "$vd/"
+  out=$(cd /verif && VERIF_REPO="$wt2" VERIF_DIR="$vd" ./check.sh "$cid" "$tier" 2>&1); rc=$?
+  git -C /repo worktree remove --force "$wt2"; rm -rf "$vd"
+  lines=$(echo "$out" | grep -A1 "^VIOLATION" | cut -c1-300 | head -8)
+  det="exit=$rc"
+  [ "$cid" != "$id" ] && tier="$tier@$cid"
+  tier="$tier(worktree)"
+elif [ $res_apply = ok ]; then
   if [ -n "$(git -C /repo status --porcelain --untracked-files=no)" ]; then echo "/repo is dirty, refusing"; exit 2; fi
   git -C /repo apply "$dst/patch.diff"
   cid="${CHECK_ID:-$id}"
